@@ -70,6 +70,11 @@ CLAIMS = {
    text="Each generated program is interpreted and its plan re-run for n in {1,2,3,7} steps in fresh interpreters; snapshots of all variables must agree between two interpreters, between one n-step request and n single steps, and (through digests) between 3 (quick) / 8 (thorough) separate processes with different hash seeds; programs without assignment statements must keep every variable exactly as the first evaluation left it.",
    note="Panics escaping step() are caught and reported; the digest covers the snapshot after interpret and after every step count.",
    ref="6/C19"),
+ "C08": dict(
+   technique="runtime monitoring: round-trip oracle parse -> format -> parse with structural comparison of the serialised syntax trees (source ranges and whitespace tokens erased), idempotence check, and a semantic twin (both trees interpreted, results and symbols compared) over a static corpus, generated composites and the repository's documents",
+   text="632 corpus programs (harvested once from the repository's tests, covering every grammar construct), seeded typed composites and every .mec document are formatted; the text must re-parse to the same normalised tree, be a fixed point of formatting, and (for executable programs) evaluate to the same result and symbols. Differences are classified by the value-free path of the first differing node or by the construct responsible for an unparsable output.",
+   note="The text formatter has many recorded emitter defects (multi-row matrices, tables, state machines, documents); composites are drawn mostly from constructs that round-trip so the remaining emitters stay monitored; failing documents are listed exactly.",
+   ref="6/C08"),
 }
 NOT_YET = "not claimed yet: the monitor for this property is still being built in this session (see DESIGN.md section 6 for the planned check)"
 
